@@ -212,7 +212,7 @@ def rule_framing(ctx: Ctx):
 
     def is_prefix(k):
         return k[0] == "param" and k[1] == "prefix_size"
-    for p in ctx.paths(spec, None, {}, max_iter=1):
+    for p in ctx.paths(spec, None, {}, max_iter=2):
         r2.paths += 1
         rc.paths += 1
         if not _normal(p):
@@ -277,7 +277,7 @@ def rule_framing(ctx: Ctx):
             ps = [k for k in co0 if is_prefix(k)]
             sz = [k for k in co0 if is_size(k)]
             others = [k for k in co0 if not is_prefix(k) and not is_size(k)]
-            if not ps or len(others) != 1:
+            if (not ps and not sz) or len(others) != 1:
                 continue
             # what follows decides whether this outcome means 'enough bytes': the loop goes on / the frame is emitted
             # the outcome means 'enough bytes' when the iteration goes on to do what needs them: parse the size
@@ -289,7 +289,8 @@ def rule_framing(ctx: Ctx):
                 start_ += 1          # the test is the loop condition: its iteration starts right after it
             end_ = next((k_ for k_ in range(start_, len(p.trace)) if p.trace[k_].k in ("loopiter", "loopexit")), len(p.trace))
             seg = p.trace[start_:end_]
-            is_payload_test = bool(sz) and (-co0[ps[0]] * (1 if co0[others[0]] > 0 else -1)) == len(sz)
+            cp0 = (-co0[ps[0]] * (1 if co0[others[0]] > 0 else -1)) if ps else 0
+            is_payload_test = bool(sz) and cp0 == len(sz)
             if cut_:
                 enough = True        # the enumeration stops here, the loop itself would go on
             elif is_payload_test:
@@ -304,7 +305,7 @@ def rule_framing(ctx: Ctx):
             # available = len - consumed, consumed = k*prefix_size + (sizes of the k delivered frames)
             # prefix test :  len - (k+1)*prefix_size - sum(k sizes)   >= 0
             # payload test:  len - (k+1)*prefix_size - sum(k+1 sizes) >= 0
-            cp = -co[ps[0]] * s_
+            cp = (-co[ps[0]] * s_) if ps else 0
             shape = co[ln] * s_ == 1 and all(co[k] * s_ == -1 for k in sz) and c == 0
             if cp == len(sz) + 1:
                 what = "prefix"
@@ -323,7 +324,7 @@ def rule_framing(ctx: Ctx):
                 "'buffer length ... %s 0'; a frame that ends exactly at the end of the buffer is not delivered until more data arrives (or never, at the end "
                 "of the stream)" % (what, show(e.test), e.outcome, "frame delivered / loop continues" if enough else "loop left", op2),
                 node=e.node, extra=what))
-    if not (seen_avail and seen_payload):
+    if not (seen_avail and seen_payload) and not rc.findings:
         raise AnalysisError("length_prefix.unframe: the availability comparisons were not found")
     # completion: an incomplete trailing frame is never delivered
     for sub in site.subscriptions:
@@ -694,3 +695,207 @@ def rule_codec(ctx: Ctx):
                                  "json files must go through rs.data.encode when written and rs.data.decode when read; %d such call(s) found" % n))
     r.require_instances(2)
     return r
+
+
+# ======================================================================
+# files: the reader of load_from_file, the writer of dump_to_file (C18, C19) and the parquet writer (C20)
+FILE = "rxsci/io/file.py"
+
+
+def _nonempty_test(test, outcome, R):
+    """True / False if the decision says 'the chunk R is not empty' / 'is empty'; None if it does not concern R;
+    'other' if it is a test on R's length that is not emptiness"""
+    from .seq import _no_epoch
+    t = _no_epoch(test)
+    while t[0] == "not":
+        t, outcome = t[1], not outcome
+    LEN = ("call", ("builtin", "len"), (R,))
+    if t == R or t == LEN or (t[0] == "call" and t[1] == ("builtin", "bool") and tuple(t[2]) in ((R,), (LEN,))):
+        return outcome
+    if not any(x == R for x in subterms(t)):
+        return None
+    nf = normalise_cmp(t, outcome)
+    if nf is not None:
+        op, co, c = nf
+        co = dict(co)
+        if list(co) == [LEN] and abs(co[LEN]) == 1:
+            s = co[LEN]
+            sat = [{"Eq": s * n + c == 0, "NotEq": s * n + c != 0, "Gt": s * n + c > 0, "GtE": s * n + c >= 0, "Lt": s * n + c < 0,
+                    "LtE": s * n + c <= 0}[op] for n in (0, 1, 2, 7)]
+            if sat == [False, True, True, True]:
+                return True
+            if sat == [True, False, False, False]:
+                return False
+    if t[0] == "cmp" and t[1] in ("Eq", "NotEq") and R in (t[2], t[3]):
+        other = t[3] if t[2] == R else t[2]
+        if other[0] == "const" and other[1] in ("", b""):
+            return (t[1] == "NotEq") == outcome
+    return "other"
+
+
+def rule_fr3(ctx: Ctx):
+    """FR-3: file.read emits every chunk it reads until the first empty one, in order, then completes."""
+    r3 = RuleResult("FR-3", "file.read: every non-empty chunk read is emitted once, in order; reading stops at the first empty chunk (or on disposal); then on_completed")
+    m, fn = ctx.function(FILE, "read")
+    inner = [f for f in ast.walk(fn) if isinstance(f, ast.FunctionDef) and f is not fn]
+    def has_completed(f, own=True):
+        for n in ast.walk(f):
+            if isinstance(n, ast.Call) and isinstance(n.func, ast.Attribute) and n.func.attr == "on_completed":
+                if m.enclosing_function(n) is f:
+                    return True
+        return False
+    acts = [f for f in inner if has_completed(f)]
+    if len(acts) != 1:
+        raise AnalysisError("file.read: expected one inner function that completes the observer, found %d" % len(acts))
+    act = acts[0]
+    r3.instances += 1
+    space = {}
+    for p in ctx.fn_paths(m, act, max_iter=1):
+        pass
+    for n, ks in ctx.ex.undecided.items():
+        space.setdefault(n, set()).update(ks)
+    from ..model import domains
+    space = {k: v for k, v in domains(space).items() if v}
+    saw = {"whole": False, "chunk": False, "empty": False}
+    for cfg in valuations(space):
+        for p in ctx.fn_paths(m, act, cfg=cfg, max_iter=2):
+            r3.paths += 1
+            if not _normal(p):
+                continue
+            # paths on which the subscriber disposed are free to stop early
+            if any(e.k == "decision" and e.test[0] in ("free",) and e.outcome for e in p.trace) or \
+                    any(e.k == "decision" and e.test[0] == "not" and e.test[1][0] == "free" and not e.outcome for e in p.trace):
+                continue
+            reads = [e for e in p.trace if e.k == "call" and e.d.get("method") == "read"]
+            cut = p.truncated or any(e.k == "loopexit" and e.d.get("cut") for e in p.trace)
+            ems = list(emissions(p))
+            outs = [x for x in ems if x.method == "on_next"]
+            comps = [x for x in ems if x.method == "on_completed"]
+            r3.groups.add((cfg_str(cfg), len(r3.groups)))
+            if not reads:
+                r3.ob(False, lambda p=p, cfg=cfg: Finding("FR-3", "%s::read{no-read}" % FILE, m.where(act), "on this path (%s) nothing is read from the file: [%s]" % (
+                    cfg_str(cfg), "; ".join(e.brief() for e in p.trace if e.k == "decision")), trace_of(p)))
+                continue
+            want = []
+            bad = None
+            for k, R in enumerate(reads):
+                verdicts = [(_nonempty_test(e.test, e.outcome, R.result), e) for e in p.trace if e.k == "decision"]
+                verdicts = [(v, e) for v, e in verdicts if v is not None]
+                if any(v == "other" for v, e in verdicts):
+                    e = [e for v, e in verdicts if v == "other"][0]
+                    bad = "the test '%s' on the chunk just read is not an emptiness test: a short final chunk is lost (or an empty one emitted)" % show(e.test)
+                    break
+                if cut and k == len(reads) - 1:
+                    continue        # the enumeration stopped here; the loop itself goes on
+                if not verdicts:
+                    # unconditional emission (whole-file read)
+                    want.append(R.result)
+                    saw["whole"] = True
+                elif verdicts[-1][0]:
+                    want.append(R.result)
+                    saw["chunk"] = True
+                else:
+                    saw["empty"] = True
+                    if k != len(reads) - 1:
+                        bad = "reading goes on after an empty chunk"
+            if bad is None:
+                got = [x.eff.arg for x in outs]
+                if got != want:
+                    bad = "chunks read and found non-empty: %s; chunks emitted: %s" % ([show(x) for x in want], [show(x) for x in got])
+                elif not cut and not (len(comps) == 1 and ems[-1] is comps[0]):
+                    bad = "on_completed must follow the last chunk, once; this path: %s" % summary(p)
+            r3.ob(bad is None, lambda bad=bad, p=p, cfg=cfg: Finding("FR-3", "%s::read{chunks}" % FILE, m.where(act), "%s (%s)" % (bad, cfg_str(cfg)), trace_of(p)))
+    r3.ob(saw["whole"] and saw["chunk"] and saw["empty"], lambda: Finding(
+        "FR-3", "%s::read{modes}" % FILE, m.where(act), "file.read must have a whole-file mode and a chunked mode that stops at the first empty chunk; found %s" % saw))
+    r3.require_instances(1)
+    return r3
+
+
+FH_SITES = {"file": (FILE, "write._write.on_subscribe", None), "parquet": ("rxsci/container/parquet.py", "_dump_parquet._dump.on_subscribe", "writer")}
+
+
+def rule_fh1_file(ctx: Ctx):
+    return _rule_fh1(ctx, ("file",))
+
+
+def rule_fh1_parquet(ctx: Ctx):
+    return _rule_fh1(ctx, ("parquet",))
+
+
+def _rule_fh1(ctx: Ctx, which_sites):
+    """FH-1: file.write / the parquet writer close the handle they opened (and only that one) when the stream ends, before the
+    terminal event is forwarded -- buffered data reaches the file before anyone is told the file is complete."""
+    r1 = RuleResult("FH-1", "a writer closes the file handle it opened itself (never one it was given) when the stream ends, before forwarding the terminal event; "
+                            "the parquet writer is closed before its file")
+    for rel, suffix, inner_close in [FH_SITES[w] for w in which_sites]:
+        site = ctx.site(rel, suffix)
+        r1.instances += 1
+        sm, sf = site.module, site.subscribe_fn
+        opens = {}
+        local_vals = {}
+        sub_paths = ctx.fn_paths(sm, sf)
+        for p in sub_paths:
+            for e in p.trace:
+                if e.k == "assign":
+                    local_vals.setdefault(e.name, set()).add(e.value)
+        local_vals = {k: list(v)[0] for k, v in local_vals.items() if len(v) == 1}
+
+        def norm(x):
+            """the test with the locals of the subscribe function replaced by the (only) value they are given there"""
+            if not isinstance(x, tuple) or not x:
+                return x
+            if x[0] == "free" and x[1] in local_vals:
+                return local_vals[x[1]]
+            return tuple(norm(y) if isinstance(y, tuple) else y for y in x)
+        for p in sub_paths:
+            for k, e in enumerate(p.trace):
+                if e.k == "ucall" and not e.d.get("raised"):
+                    conds = tuple((show(norm(x.test)), x.outcome) for x in p.trace[:k] if x.k == "decision")
+                    names = [a.name for a in p.trace[k + 1:k + 2] if a.k == "assign" and a.value == e.result]
+                    opens[(id(e.node), conds, tuple(names))] = (e, conds, names)
+        if len({k[0] for k in opens}) != 1 or any(len(v[2]) != 1 for v in opens.values()):
+            raise AnalysisError("%s::%s: expected one call of the open function whose result is kept in a variable; found %s" % (
+                rel, suffix.split(".")[0], [v[0].brief() for v in opens.values()]))
+        _, conds, names = list(opens.values())[0]
+        if len(conds) != 1:
+            raise AnalysisError("%s::%s: the file is opened under %d conditions; FH-1 expects the single 'a path was given' test" % (rel, suffix.split(".")[0], len(conds)))
+        (ctest, cout), H = conds[0], names[0]
+        for which, term in (("on_completed", "on_completed"), ("on_error", "on_error")):
+            specs = site.handler_specs(which)
+            if not specs:
+                r1.ob(False, lambda which=which: Finding("FH-1", "%s::%s{%s}" % (rel, suffix.split(".")[0], which), site.where(),
+                                                         "the %s of the source is forwarded without closing the file opened by the operator" % which))
+                continue
+            hs = specs[0]
+            for p in ctx.paths(hs, None, {}):
+                r1.paths += 1
+                if p.outcome == "raise":
+                    continue
+                mine = [e for e in p.trace if e.k == "decision" and show(norm(e.test)) == ctest]
+                r1.groups.add((rel, which, len(r1.groups)))
+                if not mine:
+                    closes = [e for e in p.trace if e.k in ("mutate", "call") and e.d.get("method") == "close" and show(e.base) == H]
+                    r1.ob(False, lambda p=p, which=which, closes=closes: mk_finding(
+                        "FH-1", hs, None, {}, p, "%s does not test '%s' (the condition under which the operator opened the file itself): it %s whatever it was given" % (
+                            which, ctest, "closes the handle" if closes else "never closes the handle"), extra="own"))
+                    continue
+                own = mine[-1].outcome == cout
+                seq = [e for e in p.trace if (e.k in ("mutate", "call") and e.d.get("method") == "close") or (e.k == "emit" and e.method == term)]
+                hclose = [k for k, e in enumerate(seq) if e.k != "emit" and show(e.base) == H]
+                terms = [k for k, e in enumerate(seq) if e.k == "emit"]
+                if own:
+                    ok = len(hclose) == 1 and len(terms) == 1 and hclose[0] < terms[0]
+                    r1.ob(ok, lambda p=p, which=which: mk_finding(
+                        "FH-1", hs, None, {}, p, "the file opened by the operator must be closed exactly once before %s is forwarded (buffered data is written by close); "
+                        "this path: %s" % (which, [e.brief() for e in seq]), extra="close"))
+                else:
+                    r1.ob(not hclose, lambda p=p, which=which: mk_finding(
+                        "FH-1", hs, None, {}, p, "a file object supplied by the caller must not be closed by the operator (the caller reads it back afterwards)", extra="foreign"))
+                if inner_close is not None:
+                    wclose = [k for k, e in enumerate(seq) if e.k != "emit" and show(e.base) == inner_close]
+                    ok = len(wclose) == 1 and (not hclose or wclose[0] < hclose[0]) and terms and wclose[0] < terms[0]
+                    r1.ob(ok, lambda p=p, which=which: mk_finding(
+                        "FH-1", hs, None, {}, p, "the parquet writer must be closed (footer written) before its file is closed and before %s is forwarded; this path: %s" % (
+                            which, [e.brief() for e in seq]), extra="writer"))
+    r1.require_instances(1)
+    return r1
